@@ -985,3 +985,102 @@ def r01_10(prog, rep, rid="R01.10"):
                 rep.ok(rid, key, f.loc(), "%s is stepped by INTERVAL and reduced modulo its period only" % v)
     if n < 5:
         rep.broken_("rule=%s expected >=5 interval-stepped cursors in the fillers, found %d" % (rid, n))
+
+
+def r01_11(prog, rep, rid="R01.11"):
+    """The yearly and monthly fillers unroll the BYMONTH / BYMONTHDAY containers into local arrays before they expand.  Such a loop
+    copies the *whole* list — it is bounded by the capacity of the array it fills — and never by the number of results wanted: that
+    number is COUNT when COUNT is small, and a list cut down to its first COUNT members (in the container's order: positives
+    ascending) loses the members the next occurrences come from (`BYMONTHDAY=5,15;COUNT=1` from the 15th gives the 5th of the
+    month after)."""
+    from ..flow import cond_atoms
+    n = 0
+    for f in fillers(prog):
+        cfg = f.cfg
+        cap = f.params[1]["n"]
+        arrays = {l_["n"]: l_.get("extent") for l_ in f.locals if l_.get("extent")}
+        for h, blks in cfg.natural_loops().items():
+            c = cfg.cond(h)
+            if c is None or _is_main_loop(f, h) and len(blks) > 6:
+                continue
+            src = None
+            for b in blks:
+                for e in cfg.blocks[b].elems:
+                    for nn in walk(e["x"]) if isinstance(e["x"], dict) else []:
+                        if nn.get("k") == "call" and (nn.get("fn") or "").endswith("_next") and len(nn["a"]) > 1:
+                            src = lv(strip_casts(f.expand(cfg.resolve(nn["a"][1])))).lstrip("&").split("->")[-1].split(".")[-1]
+            if src is None:
+                continue
+            arr = None
+            for b in blks:
+                for e in cfg.blocks[b].elems:
+                    if isinstance(e["x"], dict):
+                        for l, kind, nn in writes(e["x"]):
+                            l_ = strip_casts(l)
+                            if l_.get("k") == "idx" and lv(l_["b"]) in arrays:
+                                arr = lv(l_["b"])
+            if arr is None:
+                continue
+            n += 1
+            key = "%s/%s[]-takes-the-whole-list(%s)" % (f.name, arr, src)
+            by_cap = [a for b in blks for cc in [cfg.cond(b)] if cc is not None for a in cond_atoms(cc, True)
+                      if len(a) == 5 and a[0] in ("<", "<=") and a[2] == cap]
+            if by_cap:
+                rep.fail(rid, key, f.loc(cfg.blocks[h].elems[-1].get("line") if cfg.blocks[h].elems else None),
+                         "the loop that copies rr->%s into %s[] stops at `%s %s %s`, the number of results wanted: with a small COUNT the list is cut "
+                         "down to its first members and the occurrences that come from the others are lost (`BYMONTHDAY=5,15;COUNT=1` from the "
+                         "15th yields the 5th of the next month)" % (src, arr, by_cap[0][1], by_cap[0][0], cap))
+            else:
+                rep.ok(rid, key, f.loc(), "rr->%s is copied into %s[] without regard to the number of results wanted" % (src, arr))
+    if n < 3:
+        rep.broken_("rule=%s expected >=3 list-unrolling loops (months and days of the yearly filler, days of the monthly one), found %d" % (rid, n))
+
+
+def r01_12(prog, rep, rid="R01.12"):
+    """yd_to_md() turns a day of the year into (month, day); for a day beyond the year's end — day 366 of a common year (BYYEARDAY=366,
+    the 53rd Monday, an Easter offset late in December) — it answers month 13, which its week-date caller folds onto January on
+    purpose.  Where the pair goes straight into the candidate set, the month must have been found to be at most 12 first: month 13
+    is printed as such (`2021-13-01`), armed by the daemon as January 1 of the year after, and its packed value lies outside the 383
+    positions of the set."""
+    from ..flow import MustFacts
+    n = 0
+    for f in prog.fns_in(FILLER_FILE):
+        if not f.cfg:
+            continue
+        cfg = f.cfg
+        mds = set()
+        for b, i, x, line in cfg.all_elems():
+            if not isinstance(x, dict):
+                continue
+            for l, kind, nn in writes(x):
+                rhs = nn.get("init") if kind == "decl" else (nn.get("r") if nn.get("k") == "bin" and nn["op"] == "=" else None)
+                r = strip_casts(cfg.resolve(rhs)) if rhs is not None else None
+                if isinstance(r, dict) and r.get("k") == "call" and r.get("fn") == "yd_to_md":
+                    mds.add(lv(l))
+        if not mds:
+            continue
+        mf = MustFacts(cfg)
+        k = 0
+        for b, i, x, line in cfg.all_elems():
+            if not isinstance(x, dict):
+                continue
+            for c in calls(x):
+                if c.get("fn") != "pack_cand" or not c.get("a"):
+                    continue
+                a0 = strip_casts(cfg.resolve(c["a"][0]))
+                if not (a0.get("k") == "mem" and lv(a0["b"]) in mds):
+                    continue
+                n += 1
+                k += 1
+                t = lv(a0)
+                facts = mf.at(b, i) or set()
+                key = "%s/month-in-range-behind-yd_to_md#%d" % (f.name, k)
+                okf = [fa for fa in facts if fa[0] in ("le", "lt") and fa[1] == t and fa[2].isdigit() and int(fa[2]) <= (12 if fa[0] == "le" else 13)]
+                if okf:
+                    rep.ok(rid, key, f.loc(c.get("line", line)), "%s is known to be at most 12 where it is packed" % t)
+                else:
+                    rep.fail(rid, key, f.loc(c.get("line", line)), "%s comes from yd_to_md() and is packed into the candidate set without having been found "
+                             "<= 12: a day of the year beyond the year's end (BYYEARDAY=366 in a common year, BYDAY=53MO) yields month 13 — printed as "
+                             "`2021-13-01`, armed as January 1 of the next year, and packed outside the set's 383 positions" % t)
+    if n < 3:
+        rep.broken_("rule=%s expected >=3 (month, day) pairs from yd_to_md() packed into candidate sets, found %d" % (rid, n))
